@@ -65,6 +65,7 @@ type RefResponse struct {
 	IsJSON      bool
 	Headers     []RefHeader
 	Component   string // name when it is a component response
+	Schema      any    // raw schema node of the (first) content entry
 }
 
 type RefOp struct {
@@ -228,6 +229,9 @@ func LoadRefSpec(path string, basePathFlag string, cors bool) (*RefSpec, error) 
 						for _, ct := range sortedAnyKeys(c) {
 							rr.ContentType = ct
 							rr.IsJSON = ct == "application/json"
+							if cm, ok := rs.deref(c[ct]).(map[string]any); ok {
+								rr.Schema = cm["schema"]
+							}
 							break
 						}
 					}
